@@ -344,11 +344,15 @@ def negate(t):
 
 
 def subterms(t):
-    yield t
-    if isinstance(t, tuple):
-        for x in t[1:] if t and isinstance(t[0], str) else t:
-            if isinstance(x, tuple):
-                yield from subterms(x)
+    """All tagged sub-terms of t (t included)."""
+    if not isinstance(t, tuple) or not t:
+        return
+    tagged = isinstance(t[0], str)
+    if tagged:
+        yield t
+    for x in (t[1:] if tagged else t):
+        if isinstance(x, tuple):
+            yield from subterms(x)
 
 
 def contains(t, sub):
@@ -400,12 +404,12 @@ def show(t):
     return k + "(" + ", ".join(show(x) if isinstance(x, tuple) else str(x) for x in t[1:]) + ")"
 
 
-_terms_cache = {}
-
-
 def terms_of(funcinfo_or_node, **kw):
     node = getattr(funcinfo_or_node, "node", funcinfo_or_node)
-    k = (id(node), tuple(sorted(kw.items())))
-    if k not in _terms_cache:
-        _terms_cache[k] = Terms(node, **kw)
-    return _terms_cache[k]
+    cache = getattr(node, "_sa_terms", None)
+    if cache is None:
+        cache = node._sa_terms = {}
+    k = tuple(sorted(kw.items()))
+    if k not in cache:
+        cache[k] = Terms(node, **kw)
+    return cache[k]
